@@ -523,6 +523,15 @@ func c11EntryPoints(c *core.C) {
 							later["LoadPolicies"] = lib.Classify(a3.Authorize())
 						}
 					}
+					if tn == "block-ten-facts" {
+						// a check that has already failed when the block crosses the limit: the caller is still
+						// told that evaluation was cut short (the limit error, not a plain list of failed checks)
+						if a5, err := e.mk(tok, opt); err == nil {
+							a5.AddCheck(ast.Check{Queries: []ast.Rule{{Head: ast.P("query"), Body: []ast.Pred{ast.P("nope")}}}}.Lib())
+							a5.AddPolicy(allowAll.Lib())
+							later["a failed authorizer check"] = lib.Classify(a5.Authorize())
+						}
+					}
 					if a4, err := e.mk(tok, opt); err == nil {
 						a4.AddPolicy(allowAll.Lib())
 						a4.Reset()
